@@ -747,15 +747,47 @@ def model_string(m, chars):
     return "".join(chr(ch) if isinstance(ch, int) else chr(m.eval(ch, model_completion=True).as_long()) for ch in chars)
 
 
-class Q:
-    """one z3 solver with accounting (push/pop batches)"""
+def cvc5_decide(smt2_text, timeout_ms=30000):
+    """re-decide an exported query with cvc5 (python API, in process); returns 'sat' / 'unsat' / 'unknown' / 'error:...'"""
+    try:
+        import cvc5
 
-    def __init__(self, timeout_ms=60000):
+        slv = cvc5.Solver()
+        slv.setOption("tlimit-per", str(timeout_ms))
+        slv.setLogic("QF_LIA")
+        par = cvc5.InputParser(slv)
+        par.setStringInput(cvc5.InputLanguage.SMT_LIB_2_6, smt2_text, "q")
+        sm = par.getSymbolManager()
+        res = "unknown"
+        while True:
+            cmd = par.nextCommand()
+            if cmd.isNull():
+                break
+            out = cmd.invoke(slv, sm).strip()
+            if out in ("sat", "unsat", "unknown"):
+                res = out
+        return res
+    except Exception as e:  # noqa
+        return f"error:{type(e).__name__}:{e}"
+
+
+class Q:
+    """one z3 solver with accounting (push/pop batches); a sample of the queries is exported as SMT-LIB2 and re-decided by cvc5"""
+
+    def __init__(self, timeout_ms=60000, cross=None):
+        import os
+
         self.s = z3.Solver()
         self.s.set("timeout", timeout_ms)
         self.n = 0
         self.secs = 0.0
         self.unknown = 0
+        if cross is None:
+            cross = int(os.environ.get("VF_CROSS", "4" if os.environ.get("VERIF_TIER", "quick") == "quick" else "16"))
+        self.cross_budget = cross
+        self.cross_done = 0
+        self.cross_disagree = []
+        self.cross_secs = 0.0
 
     def add(self, *cs):
         for c in cs:
@@ -775,10 +807,19 @@ class Q:
     def check(self, *extra):
         t = time.perf_counter()
         r = str(self.s.check(*[e for e in extra if e is not True]))
-        self.secs += time.perf_counter() - t
+        dt = time.perf_counter() - t
+        self.secs += dt
         self.n += 1
         if r == "unknown":
             self.unknown += 1
+        # cross-solver diff on a spread-out sample of cheap queries (every 7th until the budget is used)
+        if r in ("sat", "unsat") and not extra and self.cross_done < self.cross_budget and self.n % 7 == 3 and dt < 5.0:
+            t = time.perf_counter()
+            r2 = cvc5_decide(self.s.to_smt2())
+            self.cross_secs += time.perf_counter() - t
+            self.cross_done += 1
+            if r2 in ("sat", "unsat") and r2 != r:
+                self.cross_disagree.append((self.n, r, r2))
         return r
 
     def model(self):
@@ -786,3 +827,11 @@ class Q:
 
     def to_smt2(self):
         return self.s.to_smt2()
+
+    def report(self, ck, what):
+        """fold the cross-solver diff into a Check"""
+        if self.cross_done:
+            ck.add_queries("cvc5", self.cross_done, self.cross_secs)
+            ck.sub(f"cvc5 re-decides a sample of the exported {what} queries", "E-RX", "holds" if not self.cross_disagree else "inconclusive",
+                   sampled=self.cross_done, disagreements=len(self.cross_disagree), cvc5_s=round(self.cross_secs, 1),
+                   notes=("z3 / cvc5 disagree on queries " + str(self.cross_disagree)) if self.cross_disagree else "")
